@@ -15,9 +15,17 @@ RULE = ('EnvVarDict: operation sequences of length 0..40 over a pool of 6 variab
         'changes, non-str arguments; started from EnvVarDict(pairs) or from_json(initial, current); a sequence is '
         'non-trivial when it has at least 3 operations and distinct by its exact text. Environment: generated '
         'environments (paths with blanks/dots/non-ASCII, every option combination, None install dirs, toolchain path, '
-        'variable histories) saved and loaded; downgraded documents for format versions 4..16. Ambient sites: AST scan of '
+        'variable histories) saved and loaded; downgraded documents for format versions 4..16. Upgrade chain: configurations '
+        'with a non-default value in every field (all install dirs set, exec_prefix below an absolute directory or a '
+        'sub-directory of prefix, bindir / libdir / others below prefix, exec_prefix, absolute or another install dir, destdir '
+        'flags, library_mode other than shared-only, compdb off, extra_args, toolchain path, mopack files, initial != current '
+        'variables, host/target platforms of every genus with a foreign architecture, a backend version other than the '
+        'installed one), each written by the real save and rewritten to every format version 4..16. Ambient sites: AST scan of '
         'every file under bfg9000/.')
-TRUSTED = ('the list of ambient-state reads of bfg9000 is complete only with respect to the syntactic forms the AST scan '
+TRUSTED = ('the inverse upgrade steps of harness/c09.py (down_to: one hand-written step per format version, validated on every '
+           'run against the repository fixture test/data/environment/v4) and the per-version expectation expected_after_upgrade '
+           '(the comments of the upgrade steps in Environment.load read as the documented defaults; the default datadir / mandir '
+           'are read from the target platform object)','the list of ambient-state reads of bfg9000 is complete only with respect to the syntactic forms the AST scan '
            'recognises (os.environ/getenv/getcwd/chdir, sys.argv, os.path.expanduser/abspath/..., platform.*, subprocess '
            'calls without env=)',
            'Version(str(v)) == v and platform to_json/from_json are exercised, not modelled beyond their JSON shape')
@@ -617,6 +625,326 @@ def check_env_roundtrip(env, tmp):
     return None
 
 
+# ----------------------------------------------------------------------------- upgrade chain: direct oracle
+# Independent of the model (and of downgrade() above, which feeds the model tie): a configuration with a non-default
+# value in every field is saved by the real Environment.save, rewritten into each older format by inverting the
+# documented upgrade steps one at a time, loaded by the real Environment.load and compared field by field with what
+# that format stored (and, for fields the format did not have yet, with the documented default).
+OLD_VERSIONS = list(range(4, 17))
+GENUS = {'android': 'linux', 'ios': 'darwin', 'macos': 'darwin'}
+
+
+class NotExpressible(Exception):
+    """the older format has no way to write this configuration down"""
+
+
+def _down17(d):     # v17 adds datadir and mandir to install_dirs
+    d['install_dirs'].pop('datadir', None)
+    d['install_dirs'].pop('mandir', None)
+
+
+def _down16(d):     # v16 adds compdb
+    del d['compdb']
+
+
+def _down15(d):     # v15 adds the mopack file list and nests the variables
+    del d['mopack']
+    v = d.pop('variables')
+    d['initial_variables'], d['variables'] = v['initial'], v['current']
+
+
+def _down14(d):     # v14 adds the architecture (and genus) to platform objects
+    for k in ('host_platform', 'target_platform'):
+        d[k] = d[k]['species']
+
+
+def _down13(d):     # v13 adds initial_variables and toolchain
+    del d['initial_variables']
+    del d['toolchain']
+
+
+def _down12(d):     # v12 splits platform into host_platform and target_platform
+    d.pop('host_platform')
+    d['platform'] = d.pop('target_platform')
+
+
+def _down11(d):     # v11 adds the destdir flag to paths
+    for k in ('bfgdir', 'srcdir', 'builddir'):
+        d[k] = d[k][:2]
+    for k, p in d['install_dirs'].items():
+        if p is None:
+            raise NotExpressible('install dir without a value')
+        d['install_dirs'][k] = p[:2]
+
+
+def _down10(d):     # v10 adds exec_prefix (and roots bindir / libdir there)
+    d['install_dirs'].pop('exec_prefix', None)
+    for k, p in d['install_dirs'].items():
+        if p[1] == 'exec_prefix':
+            p[1] = 'prefix'
+
+
+def _down9(d):      # v9 adds library_mode
+    del d['library_mode']
+
+
+def _down8(d):      # v8 adds extra_args
+    del d['extra_args']
+
+
+def _down7(d):      # v7 replaces bfgpath (the bfg9000 executable) by bfgdir
+    s, root = d.pop('bfgdir')
+    d['bfgpath'] = [(s if s.endswith('/') else s + '/') + 'bfg9000', root]
+
+
+def _down6(d):      # v6 adds backend_version and makes bfgpath a Path
+    s, root = d['bfgpath']
+    if root != 'absolute':
+        raise NotExpressible('bfgpath not absolute')
+    d['bfgpath'] = s
+    del d['backend_version']
+
+
+def _down5(d):      # v5 makes srcdir and builddir Paths
+    for k in ('srcdir', 'builddir'):
+        s, root = d[k]
+        if root != 'absolute':
+            raise NotExpressible(k + ' not absolute')
+        d[k] = s.rstrip('/') or '/'
+
+
+DOWN_STEPS = {17: _down17, 16: _down16, 15: _down15, 14: _down14, 13: _down13, 12: _down12, 11: _down11, 10: _down10,
+              9: _down9, 8: _down8, 7: _down7, 6: _down6, 5: _down5}
+
+
+def down_to(data, v):
+    """the `data` object of a current (v17) file as format version v would have stored it"""
+    d = json.loads(json.dumps(data))
+    for n in range(17, v, -1):
+        DOWN_STEPS[n](d)
+    return d
+
+
+def _cp(p):
+    return None if p is None else [p.suffix, p.root.name, bool(p.destdir), bool(p.directory)]
+
+
+def field_view(env):
+    """every configure-time field of an Environment, flat and JSON-able; paths as [suffix, root, destdir, directory]"""
+    out = {'bfgdir': _cp(env.bfgdir), 'backend': env.backend, 'backend_version': str(env.backend_version),
+           'host_platform': list(c_plat(env.host_platform)), 'target_platform': list(c_plat(env.target_platform)),
+           'srcdir': _cp(env.srcdir), 'builddir': _cp(env.builddir), 'toolchain.path': _cp(env.toolchain.path),
+           'mopack': [_cp(i) for i in env.mopack], 'library_mode': [bool(i) for i in env.library_mode],
+           'compdb': env.compdb, 'extra_args': None if env.extra_args is None else list(env.extra_args),
+           'variables.initial': [list(i) for i in env.variables.initial.items()],
+           'variables.current': [list(i) for i in env.variables.items()]}
+    for k, v in env.install_dirs.items():
+        out['install_dirs.' + k.name] = _cp(v)
+    return out
+
+
+def installed_backend_version(name):
+    from bfg9000.backends import list_backends
+    b = list_backends().get(name)
+    v = b.version() if b is not None else None
+    return None if v is None else str(v)
+
+
+def expected_after_upgrade(view, v):
+    """What loading the format-v file must give: every field format v stored, unchanged; every field added later, its
+    documented default (the comments of the upgrade steps in Environment.load)."""
+    import platform
+    from bfg9000 import platforms
+    from bfg9000.path import InstallRoot
+    e = json.loads(json.dumps(view))
+    idirs = [k for k in e if k.startswith('install_dirs.')]
+    if v < 6:       # the version of the installed backend
+        e['backend_version'] = installed_backend_version(e['backend'])
+    if v < 8:
+        e['extra_args'] = []
+    if v < 9:
+        e['library_mode'] = [True, False]
+    if v < 10:      # exec_prefix = prefix; bindir and libdir below exec_prefix
+        for k in idirs:
+            if e[k] is not None and e[k][1] in ('prefix', 'exec_prefix'):
+                e[k][1] = 'exec_prefix' if k in ('install_dirs.bindir', 'install_dirs.libdir') else 'prefix'
+        e['install_dirs.exec_prefix'] = ['', 'prefix', False, True]
+    if v < 11:      # no destdir
+        for k in ['bfgdir', 'srcdir', 'builddir'] + idirs:
+            if e[k] is not None:
+                e[k][2] = False
+    if v < 12:      # one platform
+        e['host_platform'] = list(e['target_platform'])
+    if v < 13:      # no toolchain file; the variables are the initial ones as well
+        e['toolchain.path'] = None
+        e['variables.initial'] = e['variables.current']
+    if v < 14:      # platforms by name, architecture of this machine
+        for k in ('host_platform', 'target_platform'):
+            s = e[k][1]
+            e[k] = [GENUS.get(s, s), s, platform.machine()]
+    if v < 15:
+        e['mopack'] = []
+    if v < 16:
+        e['compdb'] = True
+    if v < 17:      # the target platform's defaults
+        g, s, a = e['target_platform']
+        tp = platforms.target.from_json({'genus': g, 'species': s, 'arch': a})
+        for k in ('datadir', 'mandir'):
+            e['install_dirs.' + k] = _cp(tp.install_dirs[InstallRoot[k]].as_directory())
+    return e
+
+
+def upgrade_failures(doc, want, tmp):
+    """-> [(field, stored value, loaded value)] for the fields that Environment.load does not restore"""
+    res, env, exc = impl_load(doc, tmp)
+    if env is None:
+        return [('<load>', 'a loadable file', 'raised ' + str(exc))]
+    got = field_view(env)
+    return [(k, want.get(k, '<absent>'), got.get(k, '<absent>')) for k in sorted(set(want) | set(got))
+            if want.get(k, '<absent>') != got.get(k, '<absent>')]
+
+
+def _norm_doc(x):
+    """a document up to trailing slashes of path texts and the spelling ./ of an empty suffix"""
+    if isinstance(x, dict):
+        return {k: _norm_doc(v) for k, v in x.items()}
+    if isinstance(x, list):
+        return [_norm_doc(v) for v in x]
+    if isinstance(x, str) and x.endswith('/') and len(x) > 1:
+        return '' if x == './' else x[:-1]
+    return x
+
+
+def validate_downgrader(rep, tmp):
+    """The repository's own old-format fixture (test/data/environment/v4, used by test_upgrade_from_v4), loaded and
+    saved by the implementation and rewritten to v4 by the steps above, must be the fixture again."""
+    from bfg9000.environment import Environment
+    fixture = os.path.join(common.REPO, 'test', 'data', 'environment', 'v4')
+    orig = json.load(open(os.path.join(fixture, Environment.envfile)))
+    env = Environment.load(fixture)
+    env.save(tmp)
+    cur = json.load(open(os.path.join(tmp, Environment.envfile)))
+    back = {'version': orig['version'], 'data': down_to(cur['data'], orig['version'])}
+    ok = _norm_doc(back) == _norm_doc(orig)
+    rep.stage('R:downgrader', fixture='test/data/environment/v4', ok=ok)
+    if not ok:
+        rep.fail('R:downgrader - the fixture test/data/environment/v4, loaded, saved and rewritten to format 4 by the harness, '
+                 'is %r instead of %r (Environment.load/save changed, or the inverse upgrade steps of the harness are wrong)' % (
+                     _norm_doc(back), _norm_doc(orig)), {'obligation': 'R:downgrader', 'got': back, 'want': orig},
+                 found_input=False)
+    return ok
+
+
+def gen_env_nondefault(rng, rep):
+    """A configuration in which no field has the value an upgrade step would fill in."""
+    import platform
+    from bfg9000 import platforms
+    from bfg9000.environment import LibraryMode, Toolchain
+    from bfg9000.path import InstallRoot, Path, Root
+    from bfg9000.versioning import Version
+
+    def must(roots, **kw):
+        while True:
+            p = gen_path(rng, roots, None, **kw)
+            if p is not None:
+                return p
+    env = gen_env(rng, rep)
+    if rng.random() < 0.85:
+        env.bfgdir = must(['absolute'], directory=True)
+    if rng.random() < 0.6:      # formats older than 6 ask the installed backend for its version: needs one that exists here
+        env.backend = 'make'
+    installed = installed_backend_version(env.backend)
+    env.backend_version = Version(rng.choice([i for i in ['4.2.1', '1.10.2', '0.9', '16.11', '3.81'] if i != installed]))
+    archs = [a for a in ['x86_64', 'aarch64', 'arm64', 'i686', 'arm', 'riscv64'] if a != platform.machine()]
+    hp = (rng.choice(PLATFORMS)[0], rng.choice(archs))
+    tp = hp if rng.random() < 0.5 else (rng.choice(PLATFORMS)[0], rng.choice(archs))
+    env.host_platform = platforms.host.platform_info(*hp)
+    env.target_platform = platforms.target.platform_info(*tp)
+    rep.count('upgrade.env:' + ('cross' if hp != tp else 'native'))
+    names = list(InstallRoot)
+    if rng.random() < 0.3:
+        rng.shuffle(names)
+    dirs = {}
+    for k in names:
+        if k != InstallRoot.prefix and rng.random() < 0.06:
+            dirs[k] = None
+            continue
+        if k == InstallRoot.prefix:
+            roots = ['absolute']
+        elif k == InstallRoot.exec_prefix:
+            roots = ['absolute', 'prefix', 'prefix']
+        elif k in (InstallRoot.bindir, InstallRoot.libdir):
+            roots = ['exec_prefix', 'exec_prefix', 'prefix', 'absolute', 'libdir' if k == InstallRoot.bindir else 'bindir']
+        else:
+            roots = ['prefix', 'exec_prefix', 'absolute', 'datadir' if k != InstallRoot.datadir else 'libdir']
+        while True:
+            p = must(roots, directory=True)
+            if p.suffix or p.root.name == 'absolute':      # never the bare default (the root itself)
+                break
+        dirs[k] = p
+        rep.count('upgrade.dir:%s@%s%s' % (k.name, p.root.name, '+destdir' if p.destdir else ''))
+    env.install_dirs = dirs
+    env.toolchain = Toolchain(must(['absolute', 'srcdir'], directory=None))
+    env.mopack = [must(['absolute', 'srcdir', 'builddir']) for _ in range(rng.randint(1, 3))]
+    env.library_mode = LibraryMode(*rng.choice([(False, True), (True, True), (False, False)]))
+    env.compdb = False
+    env.extra_args = None if rng.random() < 0.12 else [rng.choice(VALUES[1:] + ['--x', '--y=z'])
+                                                       for _ in range(rng.randint(1, 3))]
+    for _ in range(30):
+        ini, cur = dict(env.variables.initial), dict(env.variables)
+        if ini and cur and ini != cur:
+            break
+        _, env.variables = impl_trace(gen_case(rng, maxops=12))
+    return env
+
+
+def report_upgrade_failure(rep, v, doc, want, fails):
+    f, a, b = fails[0]
+    rep.fail('Environment.load of a format-%d file does not restore the saved configuration: %s was stored as %r and is %r '
+             'after loading%s' % (v, f, a, b, '' if len(fails) == 1 else ' (and %d more fields: %s)' % (
+                 len(fails) - 1, ', '.join(i[0] for i in fails[1:6]))),
+             {'kind': 'upgrade', 'version': v, 'fields': [i[0] for i in fails], 'document': doc, 'expected': want},
+             classes=())
+
+
+def stage_upgrade(rep, rng, n):
+    """every older format version x n configurations; returns the number of failing (version, configuration) pairs"""
+    from bfg9000.environment import Environment
+    tmp = common.scratch('c09up')
+    bad = 0
+    per_field = {}
+    try:
+        validate_downgrader(rep, tmp)
+        for i in range(n):
+            env = gen_env_nondefault(rng, rep)
+            env.save(tmp)
+            doc = json.load(open(os.path.join(tmp, Environment.envfile)))
+            view = field_view(env)
+            for v in OLD_VERSIONS:
+                try:
+                    dv = {'version': v, 'data': down_to(doc['data'], v)}
+                    want = expected_after_upgrade(view, v)
+                    if want['backend_version'] is None:
+                        raise NotExpressible('no installed %s to ask for its version' % view['backend'])
+                except NotExpressible as e:
+                    rep.count('upgrade.not-expressible:%s' % e)
+                    continue
+                rep.case('u:%d:%s' % (v, json.dumps(dv, sort_keys=True)), True)
+                rep.count('upgrade.version:%d' % v)
+                fails = upgrade_failures(dv, want, tmp)
+                if fails:
+                    bad += 1
+                    for f in fails:
+                        per_field[(v, f[0])] = per_field.get((v, f[0]), 0) + 1
+                    if bad <= 12:
+                        report_upgrade_failure(rep, v, dv, want, fails)
+    finally:
+        shutil.rmtree(tmp, ignore_errors=True)
+    rep.stage('oracle:upgrade', configurations=n, versions=len(OLD_VERSIONS), failing=bad,
+              failing_version_field_pairs=sorted('v%d:%s x%d' % (k[0], k[1], c) for k, c in per_field.items()))
+    return bad
+
+
 def stage_w_env(rep, rng, n):
     tmp = common.scratch('c09env')
     calls, impl, docs = [], [], []
@@ -995,9 +1323,11 @@ def run(rep):
     pdis, pbad = stage_w_path(rep, rng, npath)
     if pdis and not pbad:          # the tie broke: search the implementation with a 10x budget
         pbad = stage_w_path(rep, rng, 10 * npath)[1]
+    ubad = stage_upgrade(rep, rng, 120 if thorough else 30)
     edis, ebad = stage_w_env(rep, rng, nenv)
+    ebad += ubad
     if edis and not ebad:
-        ebad = stage_w_env(rep, rng, 10 * nenv)[1]
+        ebad = stage_upgrade(rep, rng, 300) + stage_w_env(rep, rng, 10 * nenv)[1]
     sbad = stage_system(rep, rng, (12 if thorough else 3) * (4 if (new or gone or edis or dis) else 1))
     if pdis and not pbad:
         i, call, iv, mv = pdis[0]
@@ -1048,6 +1378,15 @@ def replay(rep, path):
             msg = check_env_roundtrip(env, tmp) if env is not None else 'saved document no longer loads: %s' % exc
             if msg:
                 rep.fail('Environment: ' + msg, {'kind': 'env', 'document': r['document']})
+        finally:
+            shutil.rmtree(tmp, ignore_errors=True)
+        return
+    if r.get('kind') == 'upgrade':
+        tmp = common.scratch('c09up')
+        try:
+            fails = upgrade_failures(r['document'], r['expected'], tmp)
+            if fails:
+                report_upgrade_failure(rep, r['version'], r['document'], r['expected'], fails)
         finally:
             shutil.rmtree(tmp, ignore_errors=True)
         return
